@@ -499,3 +499,58 @@ Section Bridge.
       + cbn [K.co_ids K.co_rows app rev map]. reflexivity.
   Qed.
 End Bridge.
+
+(* ====================================================================================================================
+   C10 against tokenize_model
+   ==================================================================================================================== *)
+Lemma history_independent_concrete :
+  cfg_agrees = true -> K.facts_ok K.F0 = true ->
+  forall base gi ops m0 t,
+    let y := K.run_ops K.F0 (E_conc base gi) ops (K.mkSys (K.create m0) []) in
+    report_probe (K.probe K.F0 (E_conc base gi) t (K.tk y)) =
+    T.tokenize_model cfg (tk_at base gi (smode (K.mode (K.tk y))) (K.subset (K.tk y))) t.
+Proof.
+  intros Ha HF base gi ops m0 t. cbv zeta.
+  rewrite (KP.history_independent K.F0 (E_conc base gi) ops m0 t HF).
+  rewrite (KP.facts_ok_Fexp K.F0 HF).
+  apply (fresh_probe_is_tokenize_model Ha).
+Qed.
+
+(* an analysis answers with an error value exactly when tokenize_model does: the failure cases of the state machine are
+   the Err results of tokenize_model's stages (start_build: input too long; commit: too long after rewriting;
+   build_lattice / connect_eos: the lattice cannot be connected) *)
+Lemma report_err_iff : forall r, report_probe r = B.Err <-> fst r = K.RErr.
+Proof.
+  intros [[| |] [[[[v st] nodes] L]|]]; cbn [report_probe fst]; try (split; [discriminate|discriminate]);
+    try (split; reflexivity).
+  destruct (T.report_all cfg (buf_of_view v) nodes); split; discriminate.
+Qed.
+
+Lemma error_outcomes_concrete :
+  cfg_agrees = true -> K.facts_ok K.F0 = true ->
+  forall base gi ops m0 t,
+    let y := K.run_ops K.F0 (E_conc base gi) ops (K.mkSys (K.create m0) []) in
+    fst (K.analyse K.F0 (E_conc base gi) t (K.tk y)) = K.RErr <->
+    T.tokenize_model cfg (tk_at base gi (smode (K.mode (K.tk y))) (K.subset (K.tk y))) t = B.Err.
+Proof.
+  intros Ha HF base gi ops m0 t. cbv zeta.
+  rewrite <- (history_independent_concrete Ha HF base gi ops m0 t). cbv zeta.
+  rewrite report_err_iff. unfold K.probe.
+  destruct (K.analyse K.F0 (E_conc base gi) t _) as [r s']. cbn [fst]. reflexivity.
+Qed.
+
+(* after an analysis that failed -- with an error value or a panic -- the next probe is tokenize_model from scratch *)
+Lemma failed_analysis_usable_concrete :
+  cfg_agrees = true -> K.facts_ok K.F0 = true ->
+  forall base gi ops m0 t1 t,
+    let y := K.run_ops K.F0 (E_conc base gi) ops (K.mkSys (K.create m0) []) in
+    let s1 := snd (K.analyse K.F0 (E_conc base gi) t1 (K.tk y)) in
+    fst (K.analyse K.F0 (E_conc base gi) t1 (K.tk y)) <> K.ROk ->
+    report_probe (K.probe K.F0 (E_conc base gi) t s1) =
+    T.tokenize_model cfg (tk_at base gi (smode (K.mode (K.tk y))) (K.subset (K.tk y))) t.
+Proof.
+  intros Ha HF base gi ops m0 t1 t. cbv zeta. intros Hfail.
+  rewrite (KP.failed_analysis_usable K.F0 (E_conc base gi) ops m0 t1 t HF Hfail).
+  rewrite (KP.facts_ok_Fexp K.F0 HF).
+  apply (fresh_probe_is_tokenize_model Ha).
+Qed.
